@@ -1,6 +1,6 @@
 (* C12 — deciding obligations. Statements only, closed by the lemmas proved in Circ/*Proofs.v. *)
 From Coq Require Import ZArith List Bool String.
-From VF Require Import Circ.Keys Circ.KeysProofs Circ.SubCircuit Circ.SubCircuitProofs Circ.CtlSub Circ.CtlSubProofs Generated.CondTables.
+From VF Require Import Circ.Keys Circ.KeysProofs Circ.SubCircuit Circ.SubCircuitProofs Circ.CtlSub Circ.CtlSubProofs Circ.CondBlock Circ.CondBlockProofs Generated.CondTables.
 Import ListNotations.
 Open Scope Z_scope.
 
@@ -309,3 +309,58 @@ Example C12_ctl_rescope_then_unroll_example :
   ctl_flat true true 2 (ctl_rescope true true ["0"%string] [MK ["0"%string] "m"; MK [] "c"] ctl_witness)
   = Ok [[OLeaf (Leaf 5 false [1] [] [CKey (MK [] "c") (-1); CKey (MK ["0"%string] "m") (-1)] [])]].
 Proof. exact ctl_rescope_then_unroll_sat. Qed.
+
+(* ---- conditional blocks: cirq.If(conditions, sub_operation) (Circ/CondBlock.v) ---- *)
+
+(* the constructor folds If(cs1, If(cs, o)) / If(cs1, ClassicallyControlledOperation(o, cs)) into If(cs1 ++ cs, o): the flat
+   form of the folded operation is the flat form of the inner one with cs1 put in front on every operation, its control
+   keys are those of cs1 and of the inner one, and the three key transformations commute with the folding *)
+Theorem C12_if_fold_flat : forall kK kM n cs1 x,
+  ctl_flat kK kM n (ctl_fold cs1 x) = (do ms <- ctl_flat kK kM n x; Ok (circ_add_ctl cs1 ms)).
+Proof. exact ctl_fold_flat. Qed.
+Print Assumptions C12_if_fold_flat.
+
+Theorem C12_if_fold_control_keys : forall kK kM n cs1 x,
+  ctl_ckeys kK kM n (ctl_fold cs1 x) = (do ks <- ctl_ckeys kK kM n x; Ok (conds_keys cs1 ++ ks)).
+Proof. exact ctl_fold_ckeys. Qed.
+Print Assumptions C12_if_fold_control_keys.
+
+Theorem C12_if_fold_rescope : forall kK kM path b cs1 x,
+  ctl_rescope kK kM path b (ctl_fold cs1 x) = ctl_fold (map (cond_rescope kK kM path b) cs1) (ctl_rescope kK kM path b x).
+Proof. exact ctl_fold_rescope. Qed.
+Print Assumptions C12_if_fold_rescope.
+
+Theorem C12_if_fold_key_map : forall kK kM m cs1 x,
+  ctl_kmap kK kM m (ctl_fold cs1 x) = ctl_fold (map (cond_key_map kK kM m) cs1) (ctl_kmap kK kM m x).
+Proof. exact ctl_fold_kmap. Qed.
+Print Assumptions C12_if_fold_key_map.
+
+Theorem C12_if_fold_prefix : forall kK kM p cs1 x,
+  ctl_prefix kK kM p (ctl_fold cs1 x) = ctl_fold (map (cond_prefix kK kM p) cs1) (ctl_prefix kK kM p x).
+Proof. exact ctl_fold_prefix. Qed.
+Print Assumptions C12_if_fold_prefix.
+
+(* a conditional block (If / ClassicallyControlledOperation over a sub-circuit) over a non-empty body of gates that measure
+   nothing reports, as a set, exactly the keys the operations of its flat form read: the keys of its own conditions AND
+   the keys the classical controls inside the body read (any qubit / key / parameter maps, ids, parent path, r > 0) *)
+Theorem C12_block_control_keys_are_flat_reads : forall kK kM n cs c f r ms,
+  flat_nomeas c = true -> circ_user_level c = true -> List.concat c <> [] ->
+  ext f = [] -> until f = None -> reps f = RInt r -> 0 < r ->
+  ctl_flat kK kM (S n) (cs, OSub c f) = Ok ms ->
+  exists ks, ctl_ckeys kK kM (S (S n)) (cs, OSub c f) = Ok ks /\ forall k, In k ks <-> In k (flat_reads ms).
+Proof. exact block_ckeys_are_flat_reads. Qed.
+Print Assumptions C12_block_control_keys_are_flat_reads.
+
+(* control keys taken from the conditions of the block alone lose the key its body reads (witness: If(c, [X(q1) if m])) *)
+Theorem C12_block_control_keys_conds_only_refuted : forall kK kM,
+  exists ms, ctl_flat kK kM 2 ctl_witness = Ok ms /\ In (MK [] "m") (flat_reads ms) /\
+             ~ In (MK [] "m") (ctl_ckeys_conds_only ctl_witness).
+Proof. exact ctl_ckeys_conds_only_refuted. Qed.
+Print Assumptions C12_block_control_keys_conds_only_refuted.
+
+Example C12_block_control_keys_example :
+  flat_nomeas ctl_witness_body = true /\ circ_user_level ctl_witness_body = true /\ List.concat ctl_witness_body <> [] /\
+  ext ctl_witness_fields = [] /\ until ctl_witness_fields = None /\ reps ctl_witness_fields = RInt 1 /\
+  ctl_flat true true 2 ctl_witness = Ok [[OLeaf (Leaf 5 false [1] [] [CKey (MK [] "c") (-1); CKey (MK [] "m") (-1)] [])]] /\
+  ctl_ckeys true true 3 ctl_witness = Ok [MK [] "c"; MK [] "m"].
+Proof. exact block_ckeys_sat. Qed.
